@@ -18,7 +18,8 @@ func init() {
 			"(5) cfg.startOffset is read only by findNewAssignments, groupConsumer.fetchOffsets (both required), OptValues and NewClient, cfg.resetOffset only by source.handleReqResp (the OffsetOutOfRange path, required), OptValues and NewClient; both are written only by their option, defaultCfg and NewClient; each option stores its argument into its own field and sets its own flag; NewClient copies one into the other only under `other set && this not set`; " +
 			"(6) every offset findNewAssignments hands out is cfg.startOffset or the unmodified offset pinned for that partition in directConsumer.ps; " +
 			"(7) the retry arm of handleListOrEpochResults re-queues the failed load's request as a whole (or a literal that copies every user-visible field from it), for the failed load's topic / partition and with the failed request's load type; every loadedOffset result carries as request the unmodified offsetLoad variable taken from the load map; " +
-			"(8) an Offset literal or field-by-field rebuild that copies any field from another Offset value copies all user-visible fields (at, relative, epoch, noReset, afterMilli = the fields the exported builders set); every offsetLoad literal carries an Offset; every Offset builder method modifies and returns its receiver copy and sets afterMilli unconditionally (true only in AfterMilli).",
+			"(8) an Offset literal or field-by-field rebuild that copies any field from another Offset value copies all user-visible fields (at, relative, epoch, noReset, afterMilli = the fields the exported builders set); every offsetLoad literal carries an Offset; every Offset builder method modifies and returns its receiver copy and sets afterMilli unconditionally (true only in AfterMilli); " +
+			"(9) in loadEpochsForBrokerLoad the validated offset starts as the requested `at`, every arm of the result switch takes the broker's EndOffset (no arm keeps the requested offset; only the fall-through EndOffset >= offset does), and the ErrDataLoss arm sits under `EndOffset < offset` preceded only by tests of EndOffset against a constant (the undefined-epoch sentinel), so no other condition bypasses truncation detection; the result carries that offset and error.",
 		NotDecided: "the position arithmetic of the out-of-range reset path (only who may read cfg.resetOffset / cfg.startOffset is decided), AtCommitted without a commit beyond the error injection, the direct cursor-set path's interaction with the last stable offset, and Offset values that travel through maps, channels or function results (treated as whole copies; only literals and field-by-field assignments are checked for coverage).",
 		Run:        runC40,
 	})
@@ -31,6 +32,7 @@ func runC40(c *Ctx) {
 	}
 	c40committed(c, m)
 	c40round3(c, m)
+	c40round4(c, m)
 	if f := c.NeedFunc(m, "kgo.Client.listOffsetsForBrokerLoad"); f != nil {
 		rule := "start-offset-arms"
 		// find the if/else-if chain whose first condition is loadPart.afterMilli
